@@ -1,12 +1,18 @@
 From NCG Require Import Model.Cert.
-From Coq Require Import Lia Arith.
+From Coq Require Import Lia Arith ZifyBool.
+Ltac Zify.zify_post_hook ::= Z.div_mod_to_equations.
 Local Open Scope nat_scope.
 
 (* ================= declarative vocabulary: the text of C03 / C14 ================= *)
 
+(* RSA with a modulus of 256/384/512 bytes (the bit length rounded up to whole bytes is
+   2048/3072/4096); EC P-256/384/521 *)
 Definition SupportedKey (pk : pubkey) : Prop :=
-  pk = PkRSA 256 \/ pk = PkRSA 384 \/ pk = PkRSA 512 \/ pk = PkEC 256 \/ pk = PkEC 384 \/ pk = PkEC 521.
-  (* RSA modulus of 256/384/512 bytes = 2048/3072/4096 bits; EC P-256/384/521 *)
+  match pk with
+  | PkRSA b => (2040 < b <= 2048 \/ 3064 < b <= 3072 \/ 4088 < b <= 4096)%Z
+  | PkEC b => (b = 256 \/ b = 384 \/ b = 521)%Z
+  | _ => False
+  end.
 
 (* "digital signature only": the digitalSignature bit is set and none of keyEncipherment(2),
    dataEncipherment(3), keyAgreement(4), keyCertSign(5), cRLSign(6), encipherOnly(7), decipherOnly(8) *)
@@ -108,19 +114,15 @@ Qed.
 
 Lemma key_ok_iff c : key_ok c = true <-> SupportedKey (c_pk c).
 Proof.
-  unfold key_ok, SupportedKey, extract_keyspec. destruct (c_pk c) as [b|b| |].
-  - destruct ((b * 8 =? 2048) || (b * 8 =? 3072) || (b * 8 =? 4096))%Z eqn:E.
-    + split; [intros _|reflexivity]. rewrite !orb_true_iff, !Z.eqb_eq in E.
-      destruct E as [[E|E]|E]; [left|right; left|right; right; left]; f_equal; lia.
-    + split; [discriminate|]. rewrite !orb_false_iff, !Z.eqb_neq in E.
-      intros [H|[H|[H|[H|[H|H]]]]]; inversion H; subst; lia.
+  unfold key_ok, SupportedKey, extract_keyspec, rsa_size_bytes. destruct (c_pk c) as [b|b| |].
+  - destruct (((b + 7) / 8 * 8 =? 2048) || ((b + 7) / 8 * 8 =? 3072) || ((b + 7) / 8 * 8 =? 4096))%Z eqn:E.
+    + split; [intros _|reflexivity]. rewrite !orb_true_iff, !Z.eqb_eq in E. lia.
+    + split; [discriminate|]. rewrite !orb_false_iff, !Z.eqb_neq in E. lia.
   - destruct ((b =? 256) || (b =? 384) || (b =? 521))%Z eqn:E.
-    + split; [intros _|reflexivity]. rewrite !orb_true_iff, !Z.eqb_eq in E.
-      destruct E as [[E|E]|E]; subst; tauto.
-    + split; [discriminate|]. rewrite !orb_false_iff, !Z.eqb_neq in E.
-      intros [H|[H|[H|[H|[H|H]]]]]; inversion H; subst; lia.
-  - split; [discriminate|]. intros [H|[H|[H|[H|[H|H]]]]]; discriminate.
-  - split; [discriminate|]. intros [H|[H|[H|[H|[H|H]]]]]; discriminate.
+    + split; [intros _|reflexivity]. rewrite !orb_true_iff, !Z.eqb_eq in E. lia.
+    + split; [discriminate|]. rewrite !orb_false_iff, !Z.eqb_neq in E. lia.
+  - split; [discriminate|contradiction].
+  - split; [discriminate|contradiction].
 Qed.
 
 Lemma cs_eku_iff c : cs_eku_ok c = true <-> forall e, In e (c_eku c) -> ~ In e [1; 2; 4; 8; 9]%Z.
@@ -263,16 +265,6 @@ Proof.
   - apply ts_ca_iff.
 Qed.
 
-(* inclusive validity bounds, one unit outside is rejected *)
-Theorem time_inclusive c :
-  (c_nb c <= c_na c)%Z ->
-  time_ok (Some (c_nb c)) c = true /\ time_ok (Some (c_na c)) c = true /\
-  time_ok (Some (c_nb c - 1)%Z) c = false /\ time_ok (Some (c_na c + 1)%Z) c = false /\ time_ok None c = true.
-Proof.
-  intros H. unfold time_ok. repeat split; try reflexivity;
-  rewrite ?negb_true_iff, ?negb_false_iff, ?orb_false_iff, ?orb_true_iff, ?Z.ltb_ge, ?Z.ltb_lt; lia.
-Qed.
-
 (* a signing time outside any certificate's validity rejects the chain *)
 Theorem validate_cs_time st l c :
   validate_cs sigfrom selfsig (Some st) l = true -> In c l -> (c_nb c <= st <= c_na c)%Z.
@@ -321,9 +313,20 @@ Theorem empty_chain_rejected st purpose :
 Proof. unfold validate_chain. repeat split. destruct (purpose =? 0)%Z; [reflexivity|]. destruct (purpose =? 1)%Z; reflexivity. Qed.
 End Spec.
 
+(* inclusive validity bounds, one unit outside is rejected *)
+Theorem time_inclusive c :
+  (c_nb c <= c_na c)%Z ->
+  time_ok (Some (c_nb c)) c = true /\ time_ok (Some (c_na c)) c = true /\
+  time_ok (Some (c_nb c - 1)%Z) c = false /\ time_ok (Some (c_na c + 1)%Z) c = false /\ time_ok None c = true.
+Proof.
+  intros H. unfold time_ok. repeat split; try reflexivity;
+  rewrite ?negb_true_iff, ?negb_false_iff, ?orb_false_iff, ?orb_true_iff, ?Z.ltb_ge, ?Z.ltb_lt; lia.
+Qed.
+
+
 (* ---------------- non-vacuity: a conforming three-certificate chain ---------------- *)
 Definition ex_leaf := Cert 0 100 10 11 1 0 100 false false (-1) false 1 2 [3%Z] 0 1 (PkEC 256) [] [] false.
-Definition ex_ca   := Cert 1 101 11 12 2 0 100 true true 0 true 32 2 [] 0 0 (PkRSA 384) [] [] false.
+Definition ex_ca   := Cert 1 101 11 12 2 0 100 true true 0 true 32 2 [] 0 0 (PkRSA 3072) [] [] false.
 Definition ex_root := Cert 2 102 12 12 3 0 100 true true (-1) false 96 2 [] 0 0 (PkEC 384) [] [] false.
 Definition ex_sf := mat_sigfrom [[false; true; false]; [false; false; true]; [false; false; true]].
 Example conforming_example :
